@@ -288,10 +288,12 @@ package cdcn
 //@     invariant 0 <= index && index <= length && length == len(runes)
 //@     invariant forall j :: index <= j && j < length ==> runes[j] != 10
 //@     decreases index
+// producer side of the parser's assumption nonnilq(tokens_): only tokens built by Token().Make are added
 //@ func (*scanner_).emitToken
 //@   props C12
 //@   safe
 //@   modifies view(this.tokens_)
+//@   hint before call4: token != nil
 //@ func (*scanner_).foundEOF
 //@   props C12
 //@   safe
